@@ -8,6 +8,7 @@ import Mathlib.Tactic.Positivity
 import Mathlib.Tactic.LinearCombination
 import Mathlib.Algebra.Order.Field.Basic
 import Mathlib.Analysis.Complex.Exponential
+import Mathlib.Algebra.BigOperators.Intervals
 /-
 C06 - time steppers realise their scheme.
 Property theorems about `PdeVerif.Solvers` (model of pde/solvers/*.py and of the compiled loops
@@ -561,6 +562,400 @@ theorem rk4_loop_amp (a dt ts u : K) (n : Nat) :
   | zero => simp [iterSteps]
   | succ n ih => rw [iterSteps, ih]; simp only [Option.bind_some, rk4_amp]; congr 1; rw [pow_succ]; ring
 
+/-! ### adaptive stepping -/
+
+theorem pmax_eq_max (a b : K) : pmax a b = max a b := by
+  unfold pmax; split_ifs with h
+  · exact (max_eq_right h.le).symm
+  · exact (max_eq_left (not_lt.mp h)).symm
+
+theorem pmin_eq_min (a b : K) : pmin a b = min a b := by
+  unfold pmin; split_ifs with h
+  · exact (min_eq_right h.le).symm
+  · exact (min_eq_left (not_lt.mp h)).symm
+
+theorem absK_eq_abs (x : K) : absK x = |x| := by
+  unfold absK; push_cast
+  split_ifs with h
+  · exact (abs_of_neg h).symm
+  · exact (abs_of_nonneg (not_lt.mp h)).symm
+
+/-- `dt_step = max(min(dt_opt, t_end - t), dt_min)` -/
+theorem dtStep_eq (C : Ctl K) (dtOpt tEnd t : K) :
+    dtStep C dtOpt tEnd t = max (min dtOpt (tEnd - t)) C.dtMin := by
+  unfold dtStep; rw [pmax_eq_max, pmin_eq_min]
+
+/-- the step never falls below `dt_min`; it does not pass `t_end` when at least `dt_min` remains -/
+theorem dtStep_bounds (C : Ctl K) (dtOpt tEnd t : K) :
+    C.dtMin ≤ dtStep C dtOpt tEnd t
+    ∧ dtStep C dtOpt tEnd t ≤ max (tEnd - t) C.dtMin
+    ∧ (C.dtMin ≤ tEnd - t → dtStep C dtOpt tEnd t ≤ tEnd - t)
+    ∧ (C.dtMin ≤ tEnd - t → tEnd - t ≤ dtOpt → dtStep C dtOpt tEnd t = tEnd - t) := by
+  rw [dtStep_eq]
+  refine ⟨le_max_right _ _, max_le_max (min_le_right _ _) le_rfl, ?_, ?_⟩
+  · intro h; exact max_le (min_le_right _ _) h
+  · intro h h2; rw [min_eq_right h2, max_eq_left h]
+
+/-- `adjust_dt` keeps the time step inside `[dt_min, dt_max]` for every error value and every
+`pow`/`isnan` -/
+theorem adjustDt_range (C : Ctl K) (hC : C.dtMin ≤ C.dtMax) (dt e d : K) (h : adjustDt C dt e = .ok d) :
+    C.dtMin ≤ d ∧ d ≤ C.dtMax := by
+  unfold adjustDt at h
+  simp only at h
+  generalize (if e < C.small then dt * C.up else if C.isNan e = true then dt * C.nan
+    else dt * pmax (C.safety * C.pow e C.expo) C.down) = dt1 at h
+  split_ifs at h with h1 h2 <;> simp only [Except.ok.injEq, reduceCtorEq] at h
+  · subst h; exact ⟨hC, le_rfl⟩
+  · subst h; exact ⟨not_lt.mp h2, not_lt.mp h1⟩
+
+/-- what is known about the last iteration of a finished adaptive call -/
+structure LastStep (C : Ctl K) (tEnd : K) (r : AState K) : Prop where
+  ex : ∃ rec : Rec K, r.trace.head? = some rec ∧ rec.accepted = true ∧ r.t = rec.t + rec.dt
+        ∧ rec.dt = dtStep C r.dtOpt tEnd rec.t ∧ rec.t < tEnd ∧ tEnd ≤ r.t
+
+theorem adaptiveLoop_last (C : Ctl K) (est : List K → K → K → List K × K) (tEnd : K) :
+    ∀ (fuel : Nat) (s r : AState K), s.t < tEnd → adaptiveLoop C est tEnd fuel s = .done r →
+      LastStep C tEnd r := by
+  intro fuel
+  induction fuel with
+  | zero => intro s r _ h; simp [adaptiveLoop] at h
+  | succ n ih =>
+    intro s r hs h
+    unfold adaptiveLoop at h
+    simp only at h
+    by_cases hacc : (est s.us s.t (dtStep C s.dtOpt tEnd s.t)).2 / C.tol ≤ ((1 : Nat) : K)
+    · simp only [hacc, decide_true, ↓reduceIte] at h
+      split_ifs at h with hcont
+      · split at h
+        · exact ih _ _ hcont h
+        · simp at h
+      · simp only [AOut.done.injEq] at h
+        subst h
+        exact ⟨⟨_, rfl, rfl, rfl, rfl, hs, not_lt.mp hcont⟩⟩
+    · simp only [hacc, decide_false, Bool.false_eq_true, ↓reduceIte, hs] at h
+      split at h
+      · exact ih _ _ (by exact hs) h
+      · simp at h
+
+theorem eulerAdaptiveLoop_last (C : Ctl K) (f : Rate K) (tEnd : K) :
+    ∀ (fuel : Nat) (e : EState K) (r : AState K), e.s.t < tEnd →
+      eulerAdaptiveLoop C f tEnd fuel e = .done r → LastStep C tEnd r := by
+  intro fuel
+  induction fuel with
+  | zero => intro e r _ h; simp [eulerAdaptiveLoop] at h
+  | succ n ih =>
+    intro e r hs h
+    unfold eulerAdaptiveLoop at h
+    simp only at h
+    generalize hE : maxAbs (List.zipWith (· - ·)
+        (List.zipWith (fun u r => u + dtStep C e.s.dtOpt tEnd e.s.t * r) e.s.us e.rate)
+        (List.map (fun x => x + ((1 : Nat) : K) / ((2 : Nat) : K) * dtStep C e.s.dtOpt tEnd e.s.t
+            * f x (e.s.t + ((1 : Nat) : K) / ((2 : Nat) : K) * dtStep C e.s.dtOpt tEnd e.s.t))
+          (List.zipWith (fun u r => u + ((1 : Nat) : K) / ((2 : Nat) : K) * dtStep C e.s.dtOpt tEnd e.s.t * r)
+            e.s.us e.rate))) / C.tol = errRel at h
+    by_cases hacc : errRel ≤ ((1 : Nat) : K)
+    · simp only [hacc, decide_true, ↓reduceIte] at h
+      split_ifs at h with hcont
+      · split at h
+        · exact ih _ _ hcont h
+        · simp at h
+      · simp only [AOut.done.injEq] at h
+        subst h
+        exact ⟨⟨_, rfl, rfl, rfl, rfl, hs, not_lt.mp hcont⟩⟩
+    · simp only [hacc, decide_false, Bool.false_eq_true, ↓reduceIte, hs] at h
+      split at h
+      · exact ih _ _ (by exact hs) h
+      · simp at h
+
+/-- **adaptive stepping never returns before the requested time** (both loops, any estimator,
+any controller constants) -/
+theorem adaptive_ends_at_or_after_tend (C : Ctl K) (est : List K → K → K → List K × K) (f : Rate K)
+    (fuel : Nat) (us : List K) (tStart tEnd dt0 : K) (r : AState K) (hstart : tStart < tEnd) :
+    (adaptiveStepper C est fuel us tStart tEnd dt0 = .done r → tEnd ≤ r.t)
+    ∧ (eulerAdaptiveStepper C f fuel us tStart tEnd dt0 = .done r → tEnd ≤ r.t) := by
+  constructor
+  · intro h
+    obtain ⟨_, _, _, _, _, _, h6⟩ := (adaptiveLoop_last C est tEnd fuel _ r hstart h).ex
+    exact h6
+  · intro h
+    obtain ⟨_, _, _, _, _, _, h6⟩ := (eulerAdaptiveLoop_last C f tEnd fuel _ r hstart h).ex
+    exact h6
+
+theorem lastStep_overshoot (C : Ctl K) (tEnd : K) (r : AState K) (hmin : 0 < C.dtMin)
+    (h : LastStep C tEnd r) : r.t < tEnd + C.dtMin := by
+  obtain ⟨rec, _, _, ht, hdt, hlt, _⟩ := h.ex
+  have hb := (dtStep_bounds C r.dtOpt tEnd rec.t).2.1
+  rw [ht, hdt]
+  rcases le_total (tEnd - rec.t) C.dtMin with hc | hc
+  · rw [max_eq_right hc] at hb; linarith
+  · rw [max_eq_left hc] at hb; linarith
+
+/-- **the overshoot beyond the requested time is smaller than `dt_min`** -/
+theorem adaptive_overshoot_lt_dtmin (C : Ctl K) (est : List K → K → K → List K × K) (f : Rate K)
+    (fuel : Nat) (us : List K) (tStart tEnd dt0 : K) (r : AState K) (hstart : tStart < tEnd)
+    (hmin : 0 < C.dtMin) :
+    (adaptiveStepper C est fuel us tStart tEnd dt0 = .done r → r.t < tEnd + C.dtMin)
+    ∧ (eulerAdaptiveStepper C f fuel us tStart tEnd dt0 = .done r → r.t < tEnd + C.dtMin) :=
+  ⟨fun h => lastStep_overshoot C tEnd r hmin (adaptiveLoop_last C est tEnd fuel _ r hstart h),
+   fun h => lastStep_overshoot C tEnd r hmin (eulerAdaptiveLoop_last C f tEnd fuel _ r hstart h)⟩
+
+theorem lastStep_exact (C : Ctl K) (tEnd : K) (r : AState K) (h : LastStep C tEnd r) :
+    ∃ rec : Rec K, r.trace.head? = some rec ∧ rec.accepted = true ∧ rec.t < tEnd
+      ∧ (C.dtMin ≤ tEnd - rec.t → r.t = tEnd) := by
+  obtain ⟨rec, h1, h2, ht, hdt, hlt, hge⟩ := h.ex
+  refine ⟨rec, h1, h2, hlt, ?_⟩
+  intro hrem
+  have hb := (dtStep_bounds C r.dtOpt tEnd rec.t).2.2.1 hrem
+  rw [← hdt] at hb
+  linarith
+
+/-- **adaptive stepping ends exactly at the requested time** whenever the interval that remained
+before the last accepted step was at least `dt_min` (the code never steps by less than
+`dt_min`, so a shorter remainder is overshot by less than `dt_min`) -/
+theorem adaptive_exact_end (C : Ctl K) (est : List K → K → K → List K × K) (f : Rate K)
+    (fuel : Nat) (us : List K) (tStart tEnd dt0 : K) (r : AState K) (hstart : tStart < tEnd) :
+    (adaptiveStepper C est fuel us tStart tEnd dt0 = .done r →
+      ∃ rec : Rec K, r.trace.head? = some rec ∧ rec.accepted = true ∧ rec.t < tEnd
+        ∧ (C.dtMin ≤ tEnd - rec.t → r.t = tEnd))
+    ∧ (eulerAdaptiveStepper C f fuel us tStart tEnd dt0 = .done r →
+      ∃ rec : Rec K, r.trace.head? = some rec ∧ rec.accepted = true ∧ rec.t < tEnd
+        ∧ (C.dtMin ≤ tEnd - rec.t → r.t = tEnd)) :=
+  ⟨fun h => lastStep_exact C tEnd r (adaptiveLoop_last C est tEnd fuel _ r hstart h),
+   fun h => lastStep_exact C tEnd r (eulerAdaptiveLoop_last C f tEnd fuel _ r hstart h)⟩
+
+/-- a call that fits into one step of the carried-over size is a single step of exactly the
+requested length -/
+theorem adaptive_single_step (C : Ctl K) (tStart tEnd dt0 : K)
+    (h1 : C.dtMin ≤ tEnd - tStart) (h2 : tEnd - tStart ≤ dt0) :
+    dtStep C dt0 tEnd tStart = tEnd - tStart :=
+  (dtStep_bounds C dt0 tEnd tStart).2.2.2 h1 h2
+
+/-! ### accumulation of local errors -/
+
+/-- **global error ≤ number of steps × tolerance**: if the exact flow over each accepted step is
+a non-expansive linear map `E i` (dissipative problem: `|exp(a h)| ≤ 1`), and every accepted
+step differs from the exact flow applied to the *numerical* state by at most `tol` (the local
+error), then after `n` steps the numerical state `u n` is within `n * tol` of the exact
+solution `y n` (plus the initial difference).  No assumption on the numerical step itself. -/
+theorem global_error_le_sum_local (u y E : Nat → K) (tol : K) (n : Nat)
+    (hy : ∀ i < n, y (i + 1) = E i * y i)
+    (hE : ∀ i < n, |E i| ≤ 1)
+    (hloc : ∀ i < n, |u (i + 1) - E i * u i| ≤ tol) :
+    |u n - y n| ≤ |u 0 - y 0| + (n : K) * tol := by
+  induction n with
+  | zero => simp
+  | succ n ih =>
+    have ih' := ih (fun i hi => hy i (by omega)) (fun i hi => hE i (by omega))
+      (fun i hi => hloc i (by omega))
+    have e : u (n + 1) - y (n + 1) = (u (n + 1) - E n * u n) + E n * (u n - y n) := by
+      rw [hy n (by omega)]; ring
+    have h1 := hloc n (by omega)
+    have h2 : |E n * (u n - y n)| ≤ |u n - y n| := by
+      rw [abs_mul]
+      calc |E n| * |u n - y n| ≤ 1 * |u n - y n| :=
+            mul_le_mul_of_nonneg_right (hE n (by omega)) (abs_nonneg _)
+        _ = |u n - y n| := one_mul _
+    rw [e]
+    calc |u (n + 1) - E n * u n + E n * (u n - y n)|
+        ≤ |u (n + 1) - E n * u n| + |E n * (u n - y n)| := abs_add_le _ _
+      _ ≤ tol + (|u 0 - y 0| + (n : K) * tol) := by linarith
+      _ = |u 0 - y 0| + ((n + 1 : Nat) : K) * tol := by push_cast; ring
+
+/-- `maxAbs` dominates every entry -/
+theorem foldl_pmax_ge (xs : List K) (m : K) :
+    m ≤ xs.foldl (fun m x => pmax m (absK x)) m
+    ∧ ∀ x ∈ xs, |x| ≤ xs.foldl (fun m x => pmax m (absK x)) m := by
+  induction xs generalizing m with
+  | nil => simp
+  | cons y ys ih =>
+    simp only [List.foldl_cons, List.mem_cons]
+    obtain ⟨h1, h2⟩ := ih (pmax m (absK y))
+    rw [pmax_eq_max, absK_eq_abs] at h1 h2 ⊢
+    refine ⟨le_trans (le_max_left _ _) h1, ?_⟩
+    rintro x (rfl | hx)
+    · exact le_trans (le_max_right _ _) h1
+    · exact h2 x hx
+
+theorem le_maxAbs (xs : List K) (x : K) (hx : x ∈ xs) : |x| ≤ maxAbs xs :=
+  (foldl_pmax_ge xs _).2 x hx
+
+/-- an accepted step (`error / tol ≤ 1`, `tol > 0`) has every cell of the error estimate below
+the tolerance -/
+theorem accepted_cells_le_tol (xs : List K) (tol : K) (htol : 0 < tol)
+    (hacc : maxAbs xs / tol ≤ ((1 : Nat) : K)) : ∀ x ∈ xs, |x| ≤ tol := by
+  intro x hx
+  have h1 := le_maxAbs xs x hx
+  have h2 : maxAbs xs ≤ tol := by
+    have := (div_le_iff₀ htol).mp hacc
+    push_cast at this; linarith
+  exact le_trans h1 h2
+
+/-- step doubling with Euler steps on `u' = a u`: returned value and error estimate of one cell -/
+theorem euler_doubling (a u t h : K) :
+    eulerVar (linear a) (eulerVar (linear a) u t (1 / 2 * h)) (t + 1 / 2 * h) (1 / 2 * h)
+        = (1 + a * h / 2) ^ 2 * u
+    ∧ eulerVar (linear a) u t h - (1 + a * h / 2) ^ 2 * u = -((a * h) ^ 2 / 4) * u := by
+  simp only [eulerVar, linear]; constructor <;> ring
+
 end ordered
+
+/-! ### the local error of adaptive Euler is bounded by its estimate (real numbers) -/
+
+section real
+open Real
+
+theorem exp_le_quadratic_of_nonpos {z : ℝ} (hz : z ≤ 0) : exp z ≤ 1 + z + z ^ 2 / 2 := by
+  have hx : 0 ≤ -z := by linarith
+  have h := quadratic_le_exp_of_nonneg hx
+  have hpos : 0 < 1 + (-z) + (-z) ^ 2 / 2 := by positivity
+  have e : exp z = (exp (-z))⁻¹ := by rw [exp_neg, inv_inv]
+  rw [e]
+  have h1 : (exp (-z))⁻¹ ≤ (1 + (-z) + (-z) ^ 2 / 2)⁻¹ := inv_anti₀ hpos h
+  have h2 : (1 + (-z) + (-z) ^ 2 / 2)⁻¹ ≤ 1 + z + z ^ 2 / 2 := by
+    rw [inv_le_iff_one_le_mul₀ hpos]
+    nlinarith [sq_nonneg (z ^ 2), sq_nonneg z]
+  linarith
+
+/-- **adaptive Euler, `a ≤ 0`** (`z = a*dt ≤ 0`): the distance of the returned value (two half
+steps, amplification `(1+z/2)^2`) from the exact solution `exp z` is at most the error estimate
+`|(1+z) - (1+z/2)^2| = z^2/4` -/
+theorem euler_local_error_le_estimate {z : ℝ} (hz : z ≤ 0) :
+    |exp z - (1 + z / 2) ^ 2| ≤ |(1 + z) - (1 + z / 2) ^ 2| := by
+  have h1 := add_one_le_exp z
+  have h2 := exp_le_quadratic_of_nonpos hz
+  have e : (1 + z) - (1 + z / 2) ^ 2 = -(z ^ 2 / 4) := by ring
+  rw [e, abs_neg, abs_of_nonneg (by positivity : (0 : ℝ) ≤ z ^ 2 / 4), abs_le]
+  constructor <;> nlinarith
+
+/-- the same for a state value `u`: the local error of an accepted adaptive Euler step on
+`u' = a u`, `a ≤ 0`, is at most the quantity the code compares with the tolerance -/
+theorem euler_doubling_local_error (a h u : ℝ) (ha : a ≤ 0) (hh : 0 ≤ h) :
+    |(1 + a * h / 2) ^ 2 * u - exp (a * h) * u| ≤ |(1 + a * h) * u - (1 + a * h / 2) ^ 2 * u| := by
+  have hz : a * h ≤ 0 := mul_nonpos_of_nonpos_of_nonneg ha hh
+  have := euler_local_error_le_estimate hz
+  have e1 : (1 + a * h / 2) ^ 2 * u - exp (a * h) * u = -((exp (a * h) - (1 + a * h / 2) ^ 2) * u) := by ring
+  have e2 : (1 + a * h) * u - (1 + a * h / 2) ^ 2 * u = ((1 + a * h) - (1 + a * h / 2) ^ 2) * u := by ring
+  rw [e1, e2, abs_neg, abs_mul, abs_mul]
+  exact mul_le_mul_of_nonneg_right this (abs_nonneg _)
+
+/-- the exact flow of a dissipative linear problem is non-expansive -/
+theorem exp_flow_nonexpansive (a h : ℝ) (ha : a ≤ 0) (hh : 0 ≤ h) : |exp (a * h)| ≤ 1 := by
+  rw [abs_of_pos (exp_pos _)]
+  exact exp_le_one_iff.mpr (mul_nonpos_of_nonpos_of_nonneg ha hh)
+
+/-- **adaptive Euler on `u' = a u`, `a ≤ 0`: global error ≤ accepted steps × tolerance.**
+`h i > 0` are the accepted step sizes, `u (i+1) = (1 + a h_i/2)^2 u i` the accepted values,
+the acceptance test `|(1 + a h_i) u_i - (1 + a h_i/2)^2 u_i| ≤ tol` held for each of them; then
+the final value is within `n * tol` of `exp (a * (h_0 + .. + h_{n-1})) * u 0`. -/
+theorem adaptive_euler_global_error (a tol : ℝ) (ha : a ≤ 0) (h u : Nat → ℝ) (n : Nat)
+    (hh : ∀ i < n, 0 ≤ h i)
+    (hstep : ∀ i < n, u (i + 1) = (1 + a * h i / 2) ^ 2 * u i)
+    (hacc : ∀ i < n, |(1 + a * h i) * u i - (1 + a * h i / 2) ^ 2 * u i| ≤ tol) :
+    |u n - exp (a * (Finset.range n).sum h) * u 0| ≤ (n : ℝ) * tol := by
+  have key := global_error_le_sum_local u
+    (fun i => exp (a * (Finset.range i).sum h) * u 0) (fun i => exp (a * h i)) tol n
+    (by
+      intro i _
+      rw [Finset.sum_range_succ, mul_add, exp_add]; ring)
+    (fun i hi => exp_flow_nonexpansive a (h i) ha (hh i hi))
+    (by
+      intro i hi
+      rw [hstep i hi]
+      exact le_trans (euler_doubling_local_error a (h i) (u i) ha (hh i hi)) (hacc i hi))
+  simpa using key
+
+end real
+
+/-! ## constants of the step-size controller (extracted) -/
+
+section controller
+variable {K : Type} [Field K] [LinearOrder K] [IsStrictOrderedRing K]
+
+/-- signs and ordering the loop logic relies on -/
+theorem ctl_constants_sane :
+    (0 : K) < Generated.ctl_small ∧ (Generated.ctl_small : K) < 1 ∧ (1 : K) < Generated.ctl_up
+    ∧ (0 : K) < Generated.ctl_nan ∧ (Generated.ctl_nan : K) < 1
+    ∧ (0 : K) < Generated.ctl_down ∧ (Generated.ctl_down : K) < Generated.ctl_safety
+    ∧ (Generated.ctl_safety : K) < 1 ∧ (Generated.ctl_expo : K) < 0
+    ∧ (0 : K) < Generated.ctl_dt_min ∧ (Generated.ctl_dt_min : K) < Generated.ctl_dt_max
+    ∧ (0 : K) < Generated.ctl_tolerance_default := by
+  gen_simp; norm_num
+
+/-- "the constant on the right hand side of the comparison is chosen to agree with the equation
+for adjusting dt": `safety * small^expo = up` with `expo = -1/5`, i.e. `small = (safety/up)^5`,
+to the nine digits given in the source -/
+theorem ctl_threshold_consistent :
+    (Generated.ctl_expo : K) = -1 / 5
+    ∧ |(Generated.ctl_small : K) - (Generated.ctl_safety / Generated.ctl_up) ^ 5| < 1 / 10 ^ 9 := by
+  gen_simp
+  refine ⟨by norm_num, ?_⟩
+  rw [abs_lt]; constructor <;> norm_num
+
+end controller
+
+/-! ## non-vacuity: the hypotheses above are satisfiable and the models compute -/
+
+section examples
+
+example : eulerStep (linear (-1 / 2 : ℚ)) (1 / 4) 1 0 = 7 / 8 := by
+  norm_num [eulerStep, linear]
+
+example : rk4Step rk4Tab (linear (-1 / 2 : ℚ)) (1 / 4) 1 0 = 86753 / 98304 := by
+  rw [rk4_amp]; norm_num
+
+/-- implicit Euler, `z = -1/8`: predictor `7/8`, first iterate `57/64`, mean square change
+`1/4096 < (1/10)^2`: converged after one iteration -/
+example : implicitStep (linear (-1 / 2 : ℝ)) 100 (1 / 10) (1 / 4) [1] 0 = some ([57 / 64], 1) := by
+  norm_num [implicitStep, fixpointLoop, msqDiff, implicitIter, implicitPredict, linear, HasNormSq.nsq]
+
+/-- with a threshold that is not met within `maxiter = 1` iteration: `ConvergenceError` -/
+example : implicitStep (linear (-1 / 2 : ℝ)) 1 (1 / 100) (1 / 4) [1] 0 = none := by
+  norm_num [implicitStep, fixpointLoop, msqDiff, implicitIter, implicitPredict, linear, HasNormSq.nsq]
+
+/-- four steps of length 1/4 from 0 to 1 -/
+example : stepCount (1 / 4 : ℝ) 0 1 = 4 :=
+  (fixedStepper_steps (1 / 4 : ℝ) 0 1 (by norm_num)).2.1 4 (by norm_num) (by norm_num)
+
+/-- a rounding tie: 5/2 steps are rounded to the even number 2 -/
+example : stepCount (1 : ℝ) 0 (5 / 2) = 2 := by
+  have h : roundHE ((5 / 2 - 0 : ℝ) / 1) = 2 := by
+    unfold roundHE
+    simp only [floor_def]
+    have : ⌊((5 / 2 - 0 : ℝ) / 1)⌋ = 2 := by rw [Int.floor_eq_iff]; norm_num
+    rw [this]; norm_num
+  have := stepCount_eq (1 : ℝ) 0 (5 / 2)
+  rw [h] at this
+  exact_mod_cast this
+
+/-- the fixed-step loop on a concrete problem: two Euler steps of `u' = -u/2` with `dt = 1/4` -/
+example : fixedStepper (fun (u : ℝ) t => some (eulerStep (linear (-1 / 2)) (1 / 4) u t)) (1 / 4) 0 (1 / 2) 1
+    = some (49 / 64, 1 / 2) := by
+  rw [fixedStepper_is_iterate]
+  have hc : stepCount (1 / 4 : ℝ) 0 (1 / 2) = 2 :=
+    (fixedStepper_steps (1 / 4 : ℝ) 0 (1 / 2) (by norm_num)).2.1 2 (by norm_num) (by norm_num)
+  rw [hc, euler_loop_amp]
+  norm_num
+
+/-- a finished adaptive call exists: one accepted Euler-Richardson step from 0 to 1/2 -/
+noncomputable def exampleCtl : Ctl ℝ := ctlOf 1 (1 / 10 ^ 10) (10 ^ 10) (fun _ _ => 1) (fun _ => false)
+
+example : ∃ r, adaptiveStepper exampleCtl (eulerRichardson (linear (-1))) 5 [1] 0 (1 / 2) 1 = .done r
+    ∧ r.t = 1 / 2 ∧ r.steps = 1 ∧ r.us = [9 / 16] := by
+  refine ⟨⟨[9 / 16], 1 / 2, 1, 1, [⟨0, 1 / 2, 1 / 16, true⟩]⟩, ?_, rfl, rfl, rfl⟩
+  norm_num [adaptiveStepper, adaptiveLoop, exampleCtl, ctlOf, dtStep, pmax, pmin, eulerRichardson, richardson,
+    eulerVar, linear, maxAbs, absK]
+
+/-- the hypotheses of `adaptive_euler_global_error` are satisfiable: `a = -1`, one step `h = 1/2`
+from `u = 1` with tolerance `1/16` (the estimate is exactly `z^2/4 = 1/16`) -/
+example : |(9 / 16 : ℝ) - Real.exp (-1 * (1 / 2)) * 1| ≤ 1 * (1 / 16) := by
+  have := adaptive_euler_global_error (-1) (1 / 16) (by norm_num) (fun _ => 1 / 2)
+    (fun i => if i = 0 then 1 else 9 / 16) 1 (by intro i _; norm_num)
+    (by intro i hi; have : i = 0 := by omega
+        subst this; norm_num)
+    (by intro i hi; have : i = 0 := by omega
+        subst this; norm_num [abs_le])
+  simpa using this
+
+end examples
 
 end PdeVerif.Solvers
